@@ -157,6 +157,10 @@ OpNewFromNum(sl, re, k)     == /\ sl \in Slots /\ Ctor(sl, re, "_from_num", <<k>
 OpNewFromFp(sl, re, content, tr) == /\ sl \in Slots /\ Ctor(sl, re, "_from_fp", <<content, tr>>, LineText(content))
 OpNewFromFd(sl, re, content, tr) == /\ sl \in Slots /\ Ctor(sl, re, "_from_fd", <<content, tr>>, content)
 
+\* a text longer than the model bound, offered only so that the overflowing conversions are reachable in the bounded model
+OpNewFromPtrBig(sl, re, t) == /\ sl \in Slots /\ (IF re THEN Live(sl) ELSE ~Live(sl))
+                              /\ Set(sl, (IF re THEN "re" ELSE "new") \o "_from_ptr", <<t>>, TRUE, FALSE, t, TRUE)
+
 OpDone(sl) == /\ Live(sl) /\ Mut(sl, "done", <<>>, TRUE, <<>>)                  \* leaves the empty, reusable object
 OpDel(sl)  == /\ Live(sl) /\ Set(sl, "del", <<>>, TRUE, FALSE, <<>>, FALSE)
 \* dup: the other (absent) slot becomes an independent copy
@@ -226,6 +230,12 @@ OpCmpObj(sl, kind, n)    == /\ Live(sl) /\ NOK(kind, n) /\ Qry(sl, kind, KindArg
 OpCmpSelf(sl, kind, n)   == /\ Live(sl) /\ NOK(kind, n) /\ Qry(sl, kind \o "_self", KindArgs(kind, n), 0)
 OpCmpPtrNull(sl, kind, n) == /\ Live(sl) /\ NOK(kind, n) /\ Qry(sl, kind \o "_with_ptr_null", KindArgs(kind, n), 1)
 OpToNum(sl, base)  == /\ Live(sl) /\ NumDefined(Txt(sl), base) /\ Qry(sl, "to_num", <<base>>, NumVal(Txt(sl), base))
+\* a digit text far beyond the range of size_t: the returned value is E (strtoul saturates), the text is unchanged - and, like
+\* every refused or failed call, it must leave nothing behind that a later call trusts (errno)
+NumOver(s, base) == /\ base \in {10, 16} /\ Len(s) >= (IF base = 10 THEN 20 ELSE 17)
+                    /\ \A k \in 1 .. Len(s) : IF base = 10 THEN IsDec(s[k]) ELSE IsHex(s[k])
+                    /\ s[1] # 48
+OpToNumOver(sl, base) == /\ Live(sl) /\ NumOver(Txt(sl), base) /\ Set(sl, "to_num", <<base>>, 0, TRUE, Txt(sl), TRUE)
 OpToFloat(sl)      == /\ Live(sl) /\ FloatDefined(Txt(sl)) /\ Qry(sl, "to_float", <<>>, FloatVal(Txt(sl)))
 
 ------------------------------------------------------------------------------------------
@@ -254,6 +264,7 @@ Construct(sl, re) ==
     \/ OpNew(sl, re) \/ OpNewFromPtrNull(sl, re)
     \/ \E t \in Ptrs(sl) : OpNewFromPtr(sl, re, t)
     \/ \E k \in NumsS(sl) : OpNewFromNum(sl, re, k)
+    \/ \E t \in Rare(sl, re, IF Full(sl) THEN U.bigs ELSE {}) : OpNewFromPtrBig(sl, re, t)
     \/ \E p \in Rare(sl, re, U.buffs) : OpNewFromBuff(sl, re, p[1], p[2])
     \/ \E n \in Rare(sl, re, U.nullbuffs) : OpNewFromBuffNull(sl, re, n)
     \/ \E c \in Rare(sl, re, U.fps), tr \in U.fptr : OpNewFromFp(sl, re, c, tr)
@@ -278,7 +289,7 @@ NextSlot(sl) ==
           \/ \E t \in CmpT(sl), n \in NS(sl) : OpCmpPtr(sl, kind, t, n)
           \/ \E n \in NO(sl) : OpCmpObj(sl, kind, n)
           \/ \E n \in U.nr : OpCmpSelf(sl, kind, n) \/ OpCmpPtrNull(sl, kind, n)
-    \/ \E base \in {10, 16} : OpToNum(sl, base)
+    \/ \E base \in {10, 16} : OpToNum(sl, base) \/ OpToNumOver(sl, base)
     \/ OpToFloat(sl)
 
 Next == \E sl \in Slots : NextSlot(sl)
